@@ -161,13 +161,17 @@ type sideWorld struct {
 // newSideWorld builds a world with 4 poly validators and registers one side chain through
 // registerSideChain + approveRegisterSideChain by validators until it takes effect.
 func newSideWorld(chainID, router uint64, ccmc, extra []byte) *sideWorld {
-	w := freshWorld()
+	return newSideWorldOn(freshWorld(), chainID, router, ccmc, extra)
+}
+
+// newSideWorldOn registers one more side chain on an existing world (real register + approve flow).
+func newSideWorldOn(w *world.World, chainID, router uint64, ccmc, extra []byte) *sideWorld {
 	owner := world.Acct(50).Address
 	p := &side_chain_manager.RegisterSideChainParam{Address: owner, ChainId: chainID, Router: router, Name: "side",
 		BlocksToWait: 1, CCMCAddress: ccmc, ExtraInfo: extra}
 	sink := common.NewZeroCopySink(nil)
 	p.Serialization(sink)
-	if r := w.Invoke(utils.SideChainManagerContractAddress, side_chain_manager.REGISTER_SIDE_CHAIN, sink.Bytes(), []common.Address{owner}); !r.OK() {
+	if r := invokeOn(w, utils.SideChainManagerContractAddress, side_chain_manager.REGISTER_SIDE_CHAIN, sink.Bytes(), []common.Address{owner}); !r.OK() {
 		panic("harness: registerSideChain: " + r.Err.Error())
 	}
 	for _, v := range w.Validators {
@@ -178,7 +182,7 @@ func newSideWorld(chainID, router uint64, ccmc, extra []byte) *sideWorld {
 		ap := &side_chain_manager.ChainidParam{Chainid: chainID, Address: v.Address}
 		s2 := common.NewZeroCopySink(nil)
 		ap.Serialization(s2)
-		if r := w.Invoke(utils.SideChainManagerContractAddress, side_chain_manager.APPROVE_REGISTER_SIDE_CHAIN, s2.Bytes(), []common.Address{v.Address}); !r.OK() {
+		if r := invokeOn(w, utils.SideChainManagerContractAddress, side_chain_manager.APPROVE_REGISTER_SIDE_CHAIN, s2.Bytes(), []common.Address{v.Address}); !r.OK() {
 			panic("harness: approveRegisterSideChain: " + r.Err.Error())
 		}
 	}
@@ -193,17 +197,24 @@ func newSideWorld(chainID, router uint64, ccmc, extra []byte) *sideWorld {
 // buffers (LevelDB memtable + overlay), which dominates the cost of a case, so one world per
 // process is recycled: nothing is ever committed to the backing store, hence resetting the two
 // overlay layers and re-running the genesis initConfig gives exactly the state world.New gives.
-var sharedWorld *world.World
+var sharedWorlds = map[[2]uint32]*world.World{}
 
-func freshWorld() *world.World {
-	if sharedWorld == nil {
-		sharedWorld = world.New(polyValidators, world.Opts{})
-		return sharedWorld
+func freshWorld() *world.World { return freshWorldNet(0) }
+
+// freshWorldNet: netID 0 = test net (default), 1 = main net.
+func freshWorldNet(netID uint32) *world.World { return freshWorldN(netID, polyValidators) }
+
+// freshWorldN: a genesis-state world with n poly validators.
+func freshWorldN(netID uint32, n int) *world.World {
+	key := [2]uint32{netID, uint32(n)}
+	if sharedWorlds[key] == nil {
+		sharedWorlds[key] = world.New(n, world.Opts{NetworkID: netID})
+		return sharedWorlds[key]
 	}
-	w := sharedWorld
+	w := sharedWorlds[key]
 	w.Overlay.Reset()
 	w.Cache.Reset()
-	world.ResetGlobals(0)
+	world.ResetGlobals(netID)
 	w.Height, w.Time, w.BlockHash = 0, 1600000000, common.Uint256{}
 	sink := common.NewZeroCopySink(nil)
 	world.VBFTConfigFor(w.Validators, 60000).Serialization(sink)
@@ -212,6 +223,17 @@ func freshWorld() *world.World {
 	}
 	w.Height = 1
 	return w
+}
+
+// invokeOn executes one transaction on the world. Units that check repeatability (C16) install
+// invokeHook, which executes the transaction several times from the same prior state first.
+var invokeHook func(w *world.World, contract common.Address, method string, args []byte, signers []common.Address) world.Result
+
+func invokeOn(w *world.World, contract common.Address, method string, args []byte, signers []common.Address) world.Result {
+	if invokeHook != nil {
+		return invokeHook(w, contract, method, args, signers)
+	}
+	return w.Invoke(contract, method, args, signers)
 }
 
 // Close is kept for symmetry; the recycled world is not closed.
@@ -230,7 +252,7 @@ func (w *sideWorld) syncGenesis(raw []byte) world.Result {
 	p := &hscommon.SyncGenesisHeaderParam{ChainID: w.chainID, GenesisHeader: raw}
 	sink := common.NewZeroCopySink(nil)
 	p.Serialization(sink)
-	return w.Invoke(utils.HeaderSyncContractAddress, hscommon.SYNC_GENESIS_HEADER, sink.Bytes(), []common.Address{w.Operator()})
+	return invokeOn(w.World, utils.HeaderSyncContractAddress, hscommon.SYNC_GENESIS_HEADER, sink.Bytes(), []common.Address{w.Operator()})
 }
 
 func (w *sideWorld) syncHeaders(raws [][]byte) world.Result {
@@ -238,7 +260,7 @@ func (w *sideWorld) syncHeaders(raws [][]byte) world.Result {
 	p := &hscommon.SyncBlockHeaderParam{ChainID: w.chainID, Address: relayer, Headers: raws}
 	sink := common.NewZeroCopySink(nil)
 	p.Serialization(sink)
-	return w.Invoke(utils.HeaderSyncContractAddress, hscommon.SYNC_BLOCK_HEADER, sink.Bytes(), []common.Address{relayer})
+	return invokeOn(w.World, utils.HeaderSyncContractAddress, hscommon.SYNC_BLOCK_HEADER, sink.Bytes(), []common.Address{relayer})
 }
 
 func (w *sideWorld) syncCrossChainMsgs(raws [][]byte) world.Result {
@@ -246,7 +268,7 @@ func (w *sideWorld) syncCrossChainMsgs(raws [][]byte) world.Result {
 	p := &hscommon.SyncCrossChainMsgParam{ChainID: w.chainID, Address: relayer, CrossChainMsgs: raws}
 	sink := common.NewZeroCopySink(nil)
 	p.Serialization(sink)
-	return w.Invoke(utils.HeaderSyncContractAddress, hscommon.SYNC_CROSS_CHAIN_MSG, sink.Bytes(), []common.Address{relayer})
+	return invokeOn(w.World, utils.HeaderSyncContractAddress, hscommon.SYNC_CROSS_CHAIN_MSG, sink.Bytes(), []common.Address{relayer})
 }
 
 // hsGet reads a header-sync storage item: contract || prefix || parts...
